@@ -67,6 +67,7 @@ def run(ctx):
     ctx.rule('R1.9', 'tokenize() uses the lock-protected, completely initialised default lexer and lexes the whole input in one scan', floor=5)
     RL.check_singleton_lock(ctx, 'R1.9')
     RL.check_whole_text(ctx, 'R1.9')
+    RL.check_regex_table_ownership(ctx, 'R1.6')
 
 
 def shortest_match(pattern):
